@@ -435,7 +435,11 @@ def _scan_phase_rest(docstring, arg_tokens, return_tokens):
 
         for token in rev_known_tokens_t:
             token_len: int = len(token)
-            if tuple(stack_rev[:token_len]) == token:
+            if (
+                tuple(stack_rev[:token_len]) == token
+                # a field marker opens a field only at the start of a line; elsewhere it is prose mentioning it
+                and not "".join(stack[:-token_len]).rpartition("\n")[2].strip()
+            ):
                 scanned.append((bool(len(scanned)), "".join(stack[:-token_len])))
                 stack = stack[len(scanned[-1][1]) :][:token_len]
                 continue
